@@ -1,4 +1,5 @@
 import Oas3Model.Model.Server
+import Oas3Model.Model.ServerParams
 import Oas3Model.Props.C04
 import Oas3Model.Proofs.Interop
 namespace Oas3.Props.C05
@@ -86,5 +87,122 @@ theorem routerFn_range : oasMethods.map routerFn =
 
 /-- method names are matched case-insensitively (`to_uppercase`) -/
 example : routerFn "post".toList = "post".toList ∧ routerFn "Delete".toList = "delete".toList := by decide +kernel
+
+/-! ## what the handler is handed: members of the parameter structs vs. the merged parameter set -/
+open Oas3.Client
+
+/-- `collect_parameters`: an operation-level parameter is always part of the merged set … -/
+theorem merged_keeps_op_level (ps : List WParam) (p : WParam) (hp : p ∈ ps) (hl : p.pathLevel = false)
+    (huniq : ∀ q ∈ ps, q.pathLevel = false → q.loc = p.loc → q.name = p.name → q = p) : p ∈ collectW ps := by
+  unfold collectW
+  have hop : p ∈ ps.filter (!·.pathLevel) := by simp [List.mem_filter, hp, hl]
+  have hu : ∀ q ∈ ps.filter (!·.pathLevel), q.loc = p.loc → q.name = p.name → q = p := by
+    intro q hq; simp [List.mem_filter] at hq; exact huniq q hq.1 hq.2
+  generalize ps.filter (!·.pathLevel) = ol at hop hu
+  generalize ps.filter (·.pathLevel) = acc0
+  -- invariant: once `p` has been pushed it stays (a later operation-level parameter with the same key is `p` itself)
+  suffices h : ∀ (ol : List WParam) (acc : List WParam), (∀ q ∈ ol, q.loc = p.loc → q.name = p.name → q = p) →
+      (p ∈ ol ∨ p ∈ acc) → p ∈ ol.foldl (fun acc p => acc.filter (fun q => q.loc != p.loc || q.name != p.name) ++ [p]) acc from
+    h ol acc0 hu (Or.inl hop)
+  intro ol
+  induction ol with
+  | nil =>
+    intro acc _ h
+    rcases h with h | h
+    · cases h
+    · simpa using h
+  | cons x r ih =>
+    intro acc hu h
+    simp only [List.foldl_cons]
+    apply ih _ (fun q hq => hu q (List.mem_cons_of_mem _ hq))
+    by_cases hx : x = p
+    · right; subst hx; simp
+    · rcases h with h | h
+      · rcases List.mem_cons.mp h with h | h
+        · exact absurd h.symm hx
+        · exact Or.inl h
+      · right
+        apply List.mem_append_left
+        refine List.mem_filter.mpr ⟨h, ?_⟩
+        by_cases hk : p.loc = x.loc ∧ p.name = x.name
+        · exact absurd (hu x List.mem_cons_self hk.1.symm hk.2.symm) hx
+        · by_cases h1 : p.loc = x.loc
+          · have h2 : ¬ p.name = x.name := fun e => hk ⟨h1, e⟩
+            simp [h2]
+          · simp [h1]
+
+/-- … and a path-item parameter that an operation-level parameter overrides is NOT -/
+theorem merged_drops_overridden (ps : List WParam) (p0 p1 : WParam) (h1 : p1 ∈ ps) (hl0 : p0.pathLevel = true) (hl1 : p1.pathLevel = false)
+    (hk : p0.loc = p1.loc ∧ p0.name = p1.name) : p0 ∉ collectW ps := by
+  unfold collectW
+  have hop : p1 ∈ ps.filter (!·.pathLevel) := by simp [List.mem_filter, h1, hl1]
+  have hne : ∀ q ∈ ps.filter (!·.pathLevel), q ≠ p0 := by
+    intro q hq e; subst e; simp [List.mem_filter, hl0] at hq
+  generalize ps.filter (!·.pathLevel) = ol at hop hne
+  generalize ps.filter (·.pathLevel) = acc0
+  -- after `p1` has been processed `p0` is gone, and nothing pushes it back (it is not operation-level)
+  suffices h : ∀ (ol : List WParam) (acc : List WParam), (∀ q ∈ ol, q ≠ p0) → (p1 ∈ ol ∨ p0 ∉ acc) →
+      p0 ∉ ol.foldl (fun acc p => acc.filter (fun q => q.loc != p.loc || q.name != p.name) ++ [p]) acc from
+    h ol acc0 hne (Or.inl hop)
+  intro ol
+  induction ol with
+  | nil =>
+    intro acc _ h
+    rcases h with h | h
+    · cases h
+    · simpa using h
+  | cons x r ih =>
+    intro acc hne h
+    simp only [List.foldl_cons]
+    apply ih _ (fun q hq => hne q (List.mem_cons_of_mem _ hq))
+    have hx0 : x ≠ p0 := hne x List.mem_cons_self
+    by_cases hx : x = p1
+    · right
+      subst hx
+      intro hm
+      rcases List.mem_append.mp hm with hm | hm
+      · have := (List.mem_filter.mp hm).2
+        simp [hk.1, hk.2] at this
+      · simp at hm; exact hx0 hm.symm
+    · rcases h with h | h
+      · rcases List.mem_cons.mp h with h | h
+        · exact absurd h.symm hx
+        · exact Or.inl h
+      · right
+        intro hm
+        rcases List.mem_append.mp hm with hm | hm
+        · exact h (List.mem_filter.mp hm).1
+        · simp at hm; exact hx0 hm.symm
+
+/-- the judge's clause is what it says: every merged parameter of the location has a member under its key, with
+`Option` exactly when it is not required and the declared inner type, and the struct has no further member -/
+theorem locOk_sound (merged : List WParam) (loc : Loc) (fields : List SField) (h : locOk merged loc fields = true) :
+    (∀ p ∈ merged, p.loc = loc → ∃ f ∈ fields, memberOk p f = true) ∧ fields.length = (merged.filter (·.loc == loc)).length := by
+  unfold locOk at h
+  simp only [Bool.and_eq_true, List.all_eq_true, beq_iff_eq] at h
+  refine ⟨fun p hp hl => ?_, h.2⟩
+  have := (h.1 p (List.mem_filter.mpr ⟨hp, by simp [hl]⟩)).2
+  simpa [List.any_eq_true] using this
+
+/-- the override decides the member: a path-item `revision: integer` (optional) overridden by the operation's required
+`revision: string` must arrive as `String`; the path-item's type is a failure -/
+theorem override_decides_member :
+    let ps : List WParam := [{ name := "revision".toList, loc := .query, pathLevel := true, item := .integer },
+                             { name := "revision".toList, loc := .query, item := .string, required := true }]
+    locOk (collectW ps) .query [{ ident := "revision".toList, rename := none, ty := "String".toList }] = true ∧
+    locOk (collectW ps) .query [{ ident := "revision".toList, rename := none, ty := "Option<i64>".toList }] = false := by
+  decide +kernel
+
+/-- keys: a query member is found under its serde key, a header / path member under its identifier -/
+example : memberOk { name := "sort-Order".toList, loc := .query, item := .boolean }
+    { ident := "sort_order".toList, rename := some "sort-Order".toList, ty := "Option<bool>".toList } = true ∧
+  memberOk { name := "X-Trace".toList, loc := .header, item := .integer, required := true }
+    { ident := "x_trace".toList, rename := none, ty := "i64".toList } = true ∧
+  memberOk { name := "ids".toList, loc := .query, isArray := true, item := .integer }
+    { ident := "ids".toList, rename := none, ty := "Option<Vec<i64>>".toList } = true ∧
+  memberOk { name := "e".toList, loc := .query, item := .enum, required := true }
+    { ident := "e".toList, rename := none, ty := "OpRequestQueryE".toList } = true ∧
+  memberOk { name := "e".toList, loc := .query, item := .enum, required := true }
+    { ident := "e".toList, rename := none, ty := "String".toList } = false := by decide +kernel
 
 end Oas3.Props.C05
